@@ -400,9 +400,10 @@ func checkC15(c *Check) {
 		for _, w := range em.Warnings {
 			w = strings.TrimPrefix(w, "error: ")
 			if strings.Contains(w, "defined") && strings.Contains(w, "twice") || strings.Contains(w, "duplicate") || strings.Contains(w, "redefin") || strings.Contains(w, "already defined") || strings.Contains(w, "more than once") {
-				for n := range dup {
-					if strings.Contains(w, "'"+n+"'") || strings.Contains(w, n) {
+				for _, n := range sortedKeysBool(dup) {
+					if strings.Contains(w, "'"+n+"'") {
 						w = "DUPLICATE:" + n
+						break
 					}
 				}
 			}
@@ -761,4 +762,13 @@ func gString(e *gexpr) string {
 		return "<" + ks[0] + ">"
 	}
 	return e.Op
+}
+
+func sortedKeysBool(m map[string]bool) []string {
+	var ks []string
+	for k := range m {
+		ks = append(ks, k)
+	}
+	sort.Strings(ks)
+	return ks
 }
